@@ -518,8 +518,8 @@ theorem MetaHead_mblock (om : Bool) (kw t : Str) (bs : List Nat) (X : List Str) 
   · exact hX
   · exact block_head kw t bs X hkw
 
-theorem MetaHead_sourceBlock (om : Bool) (src org : Str) (bs bo : List Nat) (X : List Str) (hX : MetaHead X) :
-    MetaHead (sourceBlock om src org bs bo ++ X) := by
+theorem MetaHead_sourceBlock (om oo : Bool) (src org : Str) (bs bo : List Nat) (X : List Str) (hX : MetaHead X) :
+    MetaHead (sourceBlock om oo src org bs bo ++ X) := by
   unfold sourceBlock; split
   · exact hX
   · rw [List.append_assoc]; exact block_head c!"SOURCE" src bs _ KwOK_std.2.2.2.2
@@ -536,14 +536,23 @@ theorem parseLoop_mblock (om : Bool) (kw : Str) (upd : Sequence → Str → Sequ
   · rename_i h; rw [h.2, h0]; rfl
   · exact parseLoop_block kw upd hkw hstep t bs X s ht hX
 
-theorem parseLoop_sourceBlock (om : Bool) (src org : Str) (bs bo : List Nat) (X : List Str) (s : Sequence)
+/-- SOURCE / ORGANISM, for every layout that writes the ORGANISM line under a SOURCE block it writes (`hoo`;
+without that line the parser takes the next keyword line for it: known finding C01-source-without-organism) -/
+theorem parseLoop_sourceBlock (om oo : Bool) (src org : Str) (bs bo : List Nat) (X : List Str) (s : Sequence)
     (hs : isText src = true) (ho : isText org = true) (hX : MetaHead X)
-    (h0 : ({ s with md := { s.md with source := [], organism := [] } } : Sequence) = s) :
-    parseLoop (sourceBlock om src org bs bo ++ X) s
+    (h0 : ({ s with md := { s.md with source := [], organism := [] } } : Sequence) = s)
+    (hoo : (oo && org == [] && !(om && src == [])) = false) :
+    parseLoop (sourceBlock om oo src org bs bo ++ X) s
       = parseLoop X { s with md := { s.md with source := src, organism := org } } := by
   unfold sourceBlock; split
   · rename_i h; rw [h.2.1, h.2.2, h0]; rfl
-  · rw [List.append_assoc]; exact parseLoop_source src org bs bo X s hs ho hX
+  · rename_i h
+    have hno : ¬ (oo = true ∧ org = []) := by
+      rintro ⟨h1, h2⟩
+      subst h1; subst h2
+      simp only [Bool.true_and, beq_self_eq_true, Bool.not_eq_false', Bool.and_eq_true, beq_iff_eq] at hoo
+      exact h ⟨hoo.1, hoo.2, rfl⟩
+    rw [if_neg hno, List.append_assoc]; exact parseLoop_source src org bs bo X s hs ho hX
 
 /-! ### the slots of the extra keyword blocks -/
 
@@ -679,7 +688,7 @@ theorem toSequenceM_eq {r : GbRec} (h : ∀ f ∈ r.features, distinct (f.quals.
 /-- the main loop over the lines of a laid-out record (followed by empty lines), for every record of the
 quantifier, repeated qualifier keys included -/
 theorem parseLoop_layout_loose (r : GbRec) (ℓ : RecLayout) (tail : List Str) (h : wfLoose r = true)
-    (ht : ∀ l ∈ tail, l = []) :
+    (ht : ∀ l ∈ tail, l = []) (hoo : orgOmitted r ℓ = false) :
     parseLoop (layout r ℓ ++ tail) {} = .ok (toSequenceM r) := by
   simp only [wfLoose, Bool.and_eq_true, decide_eq_true_eq, List.all_eq_true] at h
   obtain ⟨⟨⟨⟨⟨⟨⟨⟨⟨⟨⟨⟨hlocus, hdef⟩, hacc⟩, hver⟩, hkey⟩, hsrc⟩, horg⟩, hrefs⟩, hex⟩, hexd⟩, hfeat⟩, hseq⟩, hlen⟩ := h
@@ -700,7 +709,7 @@ theorem parseLoop_layout_loose (r : GbRec) (ℓ : RecLayout) (tail : List Str) (
   have hE6 := MetaHead_extraRest r ℓ _ hexk hF
   have hR := MetaHead_refs 0 r.refs ℓ.refs _ hE6
   have hE5 := MetaHead_extraSlot r ℓ 5 _ hexk hR
-  have hS := MetaHead_sourceBlock ℓ.omitSource r.source r.organism ℓ.source ℓ.organism _ hE5
+  have hS := MetaHead_sourceBlock ℓ.omitSource ℓ.omitOrganism r.source r.organism ℓ.source ℓ.organism _ hE5
   have hE4 := MetaHead_extraSlot r ℓ 4 _ hexk hS
   have hK := MetaHead_mblock ℓ.omitKeywords c!"KEYWORDS" r.keywords ℓ.keywords _ k4 hE4
   have hE3 := MetaHead_extraSlot r ℓ 3 _ hexk hK
@@ -731,7 +740,7 @@ theorem parseLoop_layout_loose (r : GbRec) (ℓ : RecLayout) (tail : List Str) (
     (fun line sub s hq => parseStep_keywords line sub s hq) _ _ _ _ hkey hE4 rfl]
   -- slot 4, SOURCE / ORGANISM, slot 5, REFERENCE, the remaining extra blocks
   rw [parseLoop_extraSlot r ℓ 4 _ _ hex' hexd rfl hS]
-  rw [parseLoop_sourceBlock _ _ _ _ _ _ _ hsrc horg hE5 rfl]
+  rw [parseLoop_sourceBlock _ _ _ _ _ _ _ _ hsrc horg hE5 rfl hoo]
   rw [parseLoop_extraSlot r ℓ 5 _ _ hex' hexd rfl hR]
   rw [parseLoop_refs r.refs 0 ℓ.refs _ _ hrefs hE6]
   rw [show extraRest r ℓ = extrasLines ((r.extras.drop (off ℓ.extraCuts 6)).take (afterRefsCount r ℓ))
@@ -755,9 +764,10 @@ theorem parseLoop_layout_loose (r : GbRec) (ℓ : RecLayout) (tail : List Str) (
   simp [toSequenceM, toSequence]
 
 /-- with pairwise distinct qualifier keys: exactly what the record states -/
-theorem parseLoop_layout (r : GbRec) (ℓ : RecLayout) (tail : List Str) (h : wf r = true) (ht : ∀ l ∈ tail, l = []) :
+theorem parseLoop_layout (r : GbRec) (ℓ : RecLayout) (tail : List Str) (h : wf r = true) (ht : ∀ l ∈ tail, l = [])
+    (hoo : orgOmitted r ℓ = false) :
     parseLoop (layout r ℓ ++ tail) {} = .ok (toSequence r) := by
   obtain ⟨hl, hd⟩ := wf_loose h
-  rw [parseLoop_layout_loose r ℓ tail hl ht, toSequenceM_eq hd]
+  rw [parseLoop_layout_loose r ℓ tail hl ht hoo, toSequenceM_eq hd]
 
 end PolyVerif.Lemmas.Genbank
